@@ -390,11 +390,16 @@ def jsonable(x):
 # ---------------------------------------------------------------------------
 # in-place updates of a LIVE model (non-initial states: caches must not go stale)
 
-UPDATE_STYLES = ["copy_", "rebind", "load_state_dict", "add_"]
+UPDATE_STYLES = ["reinit", "copy_", "rebind", "load_state_dict", "add_", "reinit"]
 
 
 def update_params(st, params, style):
     """bring an existing state to `params` the way training / loading / user code would"""
+    if style == "reinit":
+        # reinitialise first: the networks get brand-new Parameter objects (anything that kept a handle
+        # on the old ones is now stale), then the requested values are written into the new ones
+        st.reinitialize_parameters()
+        style = "copy_"
     for net, vals in zip(st.networks, params):
         rbm = getattr(st, net)
         i = 0
@@ -416,3 +421,13 @@ def update_params(st, params, style):
                 p.data.copy_(new[name])  # exact target value, still in place
             else:
                 raise EngineError(style)
+
+
+def space_of(st, n):
+    """the SAME basis-state tensor object for every evaluation of one live model (memoisation keyed on
+    the identity of the space tensor must not go stale either)"""
+    sp = st.__dict__.get("_qmc_space")
+    if sp is None or sp.shape[1] != n:
+        sp = tbits(n)
+        st.__dict__["_qmc_space"] = sp
+    return sp
